@@ -107,12 +107,36 @@ def opValidate (toks : List String) : String :=
     | _ => "bad-focus"
   | _ => "bad-args"
 
+open Pyshacl.Pipeline in
+def objStr : Pipeline.Obj → String
+  | .data => "data" | .ont => "ont" | .shapes => "shapes" | .fresh n => "fresh" ++ toString n
+
+open Pyshacl.Pipeline in
+def stageStr : Pipeline.Stage → String
+  | .system => "system" | .inoculate => "inoculate" | .infer => "infer" | .rules => "rules"
+
+open Pyshacl.Pipeline in
+/-- `pipeline <api v|r> <hasOnt> <multigraph> <inference> <advanced> <inplace> <shapesInData>` → the operation sequence -/
+def opPipeline (toks : List String) : String :=
+  match toks with
+  | [a, o, m, i, ad, ip, sd, hr] =>
+    let b := fun (s : String) => s = "1"
+    let c : Pipeline.Cfg := ⟨if a = "r" then .rules else .validate, b o, b m, b i, b ad, b ip, b sd, b hr⟩
+    let (ops, tgt) := Pipeline.plan c
+    let opStr := fun (op : Pipeline.Op) => match op with
+      | .clone src dst => "clone:" ++ objStr src ++ ">fresh" ++ toString dst
+      | .write st dst => "write:" ++ stageStr st ++ ":" ++ objStr dst
+      | .read st src => "read:" ++ stageStr st ++ ":" ++ objStr src
+    "ok " ++ " ".intercalate (ops.map opStr) ++ " target:" ++ objStr tgt
+  | _ => "bad-args"
+
 def step (line : String) : String :=
   match (line.trimAscii.toString.splitOn " ").filter (· ≠ "") with
   | id :: op :: rest =>
     let out := match op with
       | "path" => opPath rest
       | "validate" => opValidate rest
+      | "pipeline" => opPipeline rest
       | _ => "bad-op"
     id ++ " " ++ out
   | _ => "? bad-line"
